@@ -122,6 +122,81 @@ def handle (req : J) : Except String J := do
     pure (okJ (match pyLexStr s.toList with
       | some cps => .arr (cps.map (fun (n : Nat) => Lean.Json.num (Lean.JsonNumber.fromNat n))).toArray
       | none => .null))
+  | "header" => do
+    let version ← asStr (← field req "version")
+    let ctime ← asStr (← field req "ctime")
+    let argv ← decStrs (← field req "argv")
+    let old ← asBool (fieldD req "old" (.bool false))
+    let text := if old then Header.versionStringOld version.toList ctime.toList (argv.map String.toList)
+                else Header.versionString version.toList ctime.toList (argv.map String.toList)
+    pure (okJ (Lean.Json.mkObj [
+      ("text", .str (String.ofList text)),
+      ("ok", .bool (Header.headerOk text)),
+      ("value", match Header.headerValue text with | some v => .str (String.ofList v) | none => .null)]))
+  | "headerok" => do
+    let text ← asStr (← field req "in")
+    pure (okJ (Lean.Json.mkObj [
+      ("ok", .bool (Header.headerOk text.toList)),
+      ("value", match Header.headerValue text.toList with | some v => .str (String.ofList v) | none => .null)]))
+  | "assemble" => do
+    let args ← (← asArr (← field req "in")).toList.mapM (fun e => do
+      match (← asArr e).toList with
+      | [.str name, .str lookup, .arr docs] => do
+        pure ({ name := name, lookup := lookup, docs := ← docs.toList.mapM decJson } : Cli.Arg)
+      | _ => err "bad arg")
+    pure (resJ (fun (r : List (String × List J2M.Json)) =>
+      Lean.Json.arr (r.map (fun (n, xs) => Lean.Json.arr #[.str n, .num (Lean.JsonNumber.fromNat xs.length),
+        .arr (xs.map encJsonV).toArray])).toArray) (Cli.assemble args))
+  | "lookup" => do
+    let d ← decJson (← field req "doc")
+    let l ← asStr (← field req "lookup")
+    pure (resJ (fun (xs : List J2M.Json) => Lean.Json.arr (xs.map encJsonV).toArray) (Cli.iterJsonFile d l))
+  | "parsemerge" => do
+    let m ← asStr (← field req "in")
+    let pt ← (← asArr (fieldD req "percent" (.arr #[]))).toList.mapM (fun e => do
+      match (← asArr e).toList with
+      | [.str s, .null] => pure (s, (none : Option (Nat × Nat)))
+      | [.str s, n, d] => do pure (s, some ((← asNat n), (← asNat d)))
+      | _ => err "bad percent")
+    let it ← (← asArr (fieldD req "int" (.arr #[]))).toList.mapM (fun e => do
+      match (← asArr e).toList with
+      | [.str s, .null] => pure (s, (none : Option Int))
+      | [.str s, n] => do pure (s, some (← asInt n))
+      | _ => err "bad int")
+    let dp ← asArr (← field req "defaultPercent")
+    let dn ← asNat (← field req "defaultNumber")
+    let po : Cli.PercentOracle := fun s => (pt.find? (·.1 == s)).map (·.2)
+    let io : Cli.IntOracle := fun s => (it.find? (·.1 == s)).map (·.2)
+    let r := Cli.parseMerge po io ((← asNat dp[0]!), (← asNat dp[1]!)) dn m
+    pure (resJ (fun (c : Cmp) => match c with
+      | .exact => Lean.Json.arr #[.str "exact"]
+      | .percent n d => Lean.Json.arr #[.str "percent", .num (Lean.JsonNumber.fromNat n), .num (Lean.JsonNumber.fromNat d)]
+      | .number n => Lean.Json.arr #[.str "number", .num (Lean.JsonNumber.fromNat n)]
+      | .table _ => Lean.Json.arr #[.str "table"]) r)
+  | "clirun" => do
+    -- effect-trace model of `main()`: which step fails (if any) and what the world looks like afterwards
+    let stepErr (k : String) : Except String (Option PyErr) := do
+      match fieldD req k .null with
+      | .null => pure none
+      | .str _ => pure (some PyErr.valueError)
+      | _ => err "bad step"
+    let argOk ← asBool (fieldD req "argparseOk" (.bool true))
+    let loadE ← stepErr "loadErr"
+    let valE ← stepErr "validateErr"
+    let pipeE ← stepErr "pipelineErr"
+    let code ← asStr (fieldD req "code" (.str ""))
+    let header ← asStr (fieldD req "header" (.str ""))
+    let output := match fieldD req "output" .null with | .str p => some p | _ => none
+    let files ← decPairs (fieldD req "files" (.arr #[]))
+    let r : Cli.Run := {
+      argparseOk := argOk,
+      load := match loadE with | some e => .error e | none => .ok [],
+      validate := match valE with | some e => .error e | none => .ok (),
+      pipeline := fun _ => match pipeE with | some e => .error e | none => .ok code,
+      header := header, output := output }
+    let o := Cli.runCli r files
+    pure (okJ (Lean.Json.mkObj [("exit", .num (Lean.JsonNumber.fromNat o.exit)), ("stdout", .str o.stdout),
+      ("files", .arr (o.files.map (fun (p, t) => Lean.Json.arr #[.str p, .str t])).toArray)]))
   | "closure" => do
     let n ← asNat (← field req "n")
     let edges ← (← asArr (← field req "edges")).toList.mapM (fun e => do
